@@ -107,8 +107,14 @@ extern uint32_t __verif_j;   /* ghost index of a directory entry (C12.dir) */
 #define DIR_ENTRY_OK(data, size, j) ((uint64_t)DIR_OFF(data, j) + (uint64_t)DIR_SIZE(data, j) <= (uint64_t)(size))
 
 #ifdef VERIF_KIND
-/* case split over the section kind: every directory slot that exists is of kind VERIF_KIND */
-#define KIND_SLOT(data, size, j) ((size) < 32u + 12u * ((j) + 1u) || DIR_KIND(data, j) == (uint32_t)(VERIF_KIND))
+/* case split over the section kind: every directory slot that exists is of the kind under proof.
+ * VERIF_KIND = 1,2,3,8,9 (the five parsed kinds) or 0 = "any other value" (the default arm). */
+#if VERIF_KIND == 0
+#define KIND_IS(k) ((k) != 1u && (k) != 2u && (k) != 3u && (k) != 8u && (k) != 9u)
+#else
+#define KIND_IS(k) ((k) == (uint32_t)(VERIF_KIND))
+#endif
+#define KIND_SLOT(data, size, j) ((size) < 32u + 12u * ((j) + 1u) || KIND_IS(DIR_KIND(data, j)))
 #define KIND_PRE(data, size) ( \
   KIND_SLOT(data,size,0u) && KIND_SLOT(data,size,1u) && KIND_SLOT(data,size,2u) && KIND_SLOT(data,size,3u) && \
   KIND_SLOT(data,size,4u) && KIND_SLOT(data,size,5u) && KIND_SLOT(data,size,6u) && KIND_SLOT(data,size,7u) && \
@@ -117,10 +123,13 @@ extern uint32_t __verif_j;   /* ghost index of a directory entry (C12.dir) */
 #else
 #define KIND_PRE(data, size) 1
 #endif
+#ifndef VERIF_MAX_SIZE
+#define VERIF_MAX_SIZE NVM_MAX_FILE
+#endif
 
 NvmModule *nvm_deserialize(const uint8_t *data, uint32_t size)
-__CPROVER_requires(size <= NVM_MAX_FILE)
-__CPROVER_requires(__CPROVER_is_fresh(data, size))
+__CPROVER_requires(size <= VERIF_MAX_SIZE)
+__CPROVER_requires(VERIF_FRESH(data, size))
 __CPROVER_requires(KIND_PRE(data, size))
 __CPROVER_requires(__verif_g.seq == 0 && __verif_g.crc_seq == 0 && __verif_g.module_new_seq == 0 && __verif_g.exited == 0)
 __CPROVER_requires(__verif_j < 16)
